@@ -59,6 +59,32 @@ def lift_ite(t: T) -> T:
     return t
 
 
+def dispatch_ok(value: T, pc, evs: T) -> bool:
+    """value == handlers[NAME](self, events) or handlers.get(NAME)(self, events) with NAME == trace_codes[ID] or
+    trace_codes.get(ID[, None]), ID == events[0].eventid, reached only when the id is in the table (or its .get is not None)
+    and the name has a decoder (or the decoder's .get is not None)."""
+    tc = T("attr", (SELF, "trace_codes"))
+    H = T("attr", (SELF, "handlers"))
+    first_id = T("attr", (T("sub", (evs, const(0))), "eventid"))
+    names = [(T("sub", (tc, first_id)), "in")] + \
+        [(T("call", (T("attr", (tc, "get")), (first_id,) + d, ())), "get") for d in ((), (const(None),))]
+    a = guards.assumptions(pc)
+    for name, nkind in names:
+        in_table = render.assume_lookup(a, T("cmp", ("in", first_id, tc))) is True
+        if nkind == "get":
+            in_table = in_table or render.assume_lookup(a, T("cmp", ("is", name, const(None)))) is False
+        handlers_ = [(T("sub", (H, name)), "in")] + [(T("call", (T("attr", (H, "get")), (name,) + d, ())), "get")
+                                                    for d in ((), (const(None),))]
+        for h, hkind in handlers_:
+            if value != T("call", (h, (SELF, evs), ())):
+                continue
+            decodable = render.assume_lookup(a, T("cmp", ("in", name, H))) is True
+            if hkind == "get":
+                decodable = decodable or render.assume_lookup(a, T("cmp", ("is", h, const(None)))) is False
+            return in_table and decodable
+    return False
+
+
 def check(repo: Repo, run: Run) -> None:
     interp = sym.Interp(repo)
     tp = repo.cls("traces_parser", "TracesParser")
@@ -319,20 +345,19 @@ def check(repo: Repo, run: Run) -> None:
     # ---- K8 feed_generator
     fn, rec = method("feed_generator")
     gen = param(fn.args.args[1].arg)
-    loops = [lr for lr in rec.loops.values() if lr.kind == "for" and lr.func.endswith(".feed_generator")]
+    # the loop may live in a private generator that feed_generator delegates to with `yield from` (expanded in place)
     yields = [r for r in rec.returns if r.kind in ("yield", "yield_from")]
+    loops = [lr for lr in rec.loops.values() if lr.kind == "for" and (lr.func.endswith(".feed_generator") or
+                                                                       any(lr.id in y.loops for y in yields))]
     ok = len(loops) == 1 and loops[0].iter == gen and len(yields) == 1 and yields[0].kind == "yield"
     if ok:
         feedfn = M["feed"]
         v = interp.run(tp.module, feedfn, {"self": SELF, feedfn.args.args[1].arg: loops[0].target}, self_cls=tp).return_term()
         y = yields[0]
         inner = [c for c in y.pc]
-        ok = sym.canon(y.value) == sym.canon(v) and len(inner) == 1 and \
-            render.norm_bool(inner[0][0]) == (T("cmp", ("is", y.value, const(None))), not inner[0][1] if True else None)
-        if not ok:
-            nb = render.norm_bool(inner[0][0]) if len(inner) == 1 else None
-            ok = sym.canon(y.value) == sym.canon(v) and nb is not None and nb[0] == T("cmp", ("is", y.value, const(None))) \
-                and (nb[1] != inner[0][1])
+        nb = render.norm_bool(inner[0][0]) if len(inner) == 1 else None
+        ok = sym.canon(y.value) == sym.canon(v) and nb is not None and nb[0] == T("cmp", ("is", y.value, const(None))) \
+            and (nb[1] != inner[0][1])
     run.ob("K8", MOD, "TracesParser.feed_generator", "yields exactly the non-None results of feed, in order", ok,
            "feed_generator is not `for event in generator: r = feed(event); if r is not None: yield r`: traces are dropped, "
            "duplicated, reordered or None is emitted", line=fn.lineno)
@@ -343,24 +368,9 @@ def check(repo: Repo, run: Run) -> None:
     # ---- K9 parse_event_list
     fn, rec = method("parse_event_list")
     evs = param(fn.args.args[1].arg)
-    first_id = T("attr", (T("sub", (evs, const(0))), "eventid"))
-    name = T("sub", (tc, first_id))
-    want_call = T("call", (T("sub", (T("attr", (SELF, "handlers")), name)), (SELF, evs), ()))
     rets = [x for x in rec.returns if x.kind == "return"]
     live = [x for x in rets if x.value != const(None)]
-    ok = len(live) == 1 and live[0].value == want_call
-    if ok:
-        a = guards.assumptions(live[0].pc)
-        ok = render.assume_lookup(a, T("cmp", ("in", first_id, tc))) is True and \
-            render.assume_lookup(a, T("cmp", ("in", name, T("attr", (SELF, "handlers"))))) is True
-    elif len(live) == 1:
-        # the same decision through .get:  h = handlers.get(table[id]);  None if h is None else h(self, events)
-        for dflt in ((), (const(None),)):
-            got_h = T("call", (T("attr", (T("attr", (SELF, "handlers")), "get")), (name,) + dflt, ()))
-            if live[0].value == T("call", (got_h, (SELF, evs), ())):
-                a = guards.assumptions(live[0].pc)
-                ok = render.assume_lookup(a, T("cmp", ("in", first_id, tc))) is True and \
-                    render.assume_lookup(a, T("cmp", ("is", got_h, const(None)))) is False
+    ok = len(live) == 1 and dispatch_ok(live[0].value, live[0].pc, evs)
     run.ob("K9", MOD, "TracesParser.parse_event_list", "None unless id in table and name has a decoder", ok,
            "parse_event_list is not `None unless events[0].eventid in trace_codes and its name in handlers, else "
            "handlers[name](self, events)`", line=fn.lineno)
